@@ -9,6 +9,7 @@ import ALV.Props.C09
 import ALV.Props.C10
 import ALV.Props.C11
 import ALV.Props.C12
+import ALV.Props.C13
 import ALV.Props.C14
 import ALV.Props.C15
 import ALV.Props.C16
